@@ -696,6 +696,10 @@ func (c *Client) Do(ctx context.Context, q Query) (err error) {
 				return ctx.Err()
 			case colInfo <- result:
 				return nil
+			default:
+				// Column info is already delivered (or waiting to be picked up):
+				// a server that sends further blocks must not block the receiver.
+				return nil
 			}
 		}
 	}
